@@ -73,4 +73,10 @@ CLAIMED["C12"] = (
     "sub-graphs augmented with the full node set; acyclicity, phase/period spacing, delays, horizon masking, FIFO arrival and first-step assignment are recomputed independently.",
     "only configurations generate_graphs documents as supported; networkx used for the cycle test; 2 ulp float32 tolerance where sums are recomputed", "DESIGN.md §4 C12",
 )
+CLAIMED["C10"] = (
+    PBT + ": reference window model (arrival = sender end + d) and differential against the compiled static twin (same rng, Deterministic(clip(d)))",
+    "Generated systems with a trainable zoh connection x [min,max] ranges x windows x d inside / at the bounds / outside x three ways of setting d x supergraph modes; "
+    "windows must equal the model and all nodes' states/outputs must equal the static twin's.",
+    "rex's window sizing assumption (violations counted, not asserted); exact ties not asserted; compiled runtime with generate_graphs graphs", "DESIGN.md §4 C10",
+)
 NOT_APPLICABLE = {}
